@@ -23,6 +23,11 @@ def dec_fn(w):
     return _dec[w]
 
 
+def be_sum(cells):
+    w = len(cells)
+    return z3.Sum([c * (256 ** (w - 1 - i)) for i, c in enumerate(cells)])
+
+
 def enc_fns(w):
     dec_fn(w)
     return _enc[w]
@@ -84,6 +89,8 @@ def struct_pack(I, args, kwargs):
             for i, c in enumerate(cells):
                 I.path.fact(z3.And(c >= 0, c < 256, c == enc_fns(w)[i](z)), "struct:big-endian codec instance")
             I.path.fact(dec_fn(w)(*cells) == z, "struct:big-endian codec instance")
+            if w <= 4:
+                I.path.fact(z == be_sum(cells), "struct:big-endian value of a <=4-byte field (linear)")
             arr = z3.K(IntS, z3.IntVal(0))
             for i, c in enumerate(cells):
                 arr = z3.Store(arr, i, c)
@@ -125,6 +132,8 @@ def struct_unpack(I, args, kwargs):
                 I.path.fact(z3.And(c >= 0, c < 256), "bytes are in 0..255")
                 I.path.fact(enc_fns(w)[i](val) == c, "struct:big-endian codec instance")
             I.path.fact(z3.And(val >= 0, val < 2 ** (8 * w)), "struct:big-endian codec instance")
+            if w <= 4:
+                I.path.fact(val == be_sum(cells), "struct:big-endian value of a <=4-byte field (linear)")
             out.append(val)
         off += w
     return tuple(out)
@@ -326,7 +335,27 @@ def ModelFn_(name, fn):
 
 
 def m_exists(I, args, kwargs):
-    return disk_get(I, path_key(args[0])).exists
+    key = path_key(args[0])
+    h = I.cfg.get("isdir")
+    if h is not None and key not in I.disk and h(I, key):
+        return True
+    if any(st.exists and k.startswith(key + "/") for k, st in I.disk.items()):
+        return True          # a directory with entries
+    return disk_get(I, key).exists
+
+
+def m_rm_dir(I, args, kwargs):
+    """fileutil.rm_dir: recursive removal (trusted model)"""
+    key = path_key(args[0])
+    h = I.cfg.get("rm_dir")
+    if h is not None:
+        return h(I, key)
+    for k, st in I.disk.items():
+        if k.startswith(key + "/"):
+            st.exists = False
+    I.ghost.setdefault("rm_dir", []).append(key)
+    crash_point(I, "rm_dir", key)
+    return None
 
 
 def m_getsize(I, args, kwargs):
@@ -1121,6 +1150,7 @@ def build_table():
         from allmydata.util import fileutil
         t[fileutil.make_dirs] = m_make_dirs
         t[fileutil.rename] = m_rename
+        t[fileutil.rm_dir] = m_rm_dir
     except Exception:
         pass
     try:
